@@ -244,6 +244,15 @@ func (e *env) ServeHTTP(w http.ResponseWriter, r *http.Request) {
 	if n == 0 {
 		return
 	}
+	// every fifth chunked HTTP/1.1 response declares a trailer and sets it behind the body: the
+	// closing part of the chunked stream (last chunk, trailer fields) follows writes of any size
+	// (declared before a handler that flushes first commits the head)
+	trailer := hd.Get("X-Cl") == "" && r.ProtoAtLeast(1, 1) && id%5 == 2
+	if trailer {
+		w.Header().Set("Trailer", "X-Sum")
+		defer func() { w.Header().Set("X-Sum", strconv.FormatUint(uint64(id), 10)) }()
+		e.r.Count("responses_with_a_declared_trailer", 1)
+	}
 	if hd.Get("X-Flush") == "first" {
 		if f, ok := w.(http.Flusher); ok {
 			f.Flush()
